@@ -157,6 +157,142 @@ func c19RequiresNil(f *ssa.Function, target func(ssa.Instruction) bool, isErr fu
 	return nil
 }
 
+// c19Reach is core.Reach decided per (block, predecessor) like c19RequiresNil: a block
+// that tests a φ-node of its own against nil is left only on the side the operand that
+// entered the φ on this path allows (operand nil: the nil side; operand known to be
+// non-nil where it entered: the other side) – the shape `v, err := step(); if err != nil`
+// has once step, with its `return nil, err` / `return v, nil`, is inlined. Everything
+// else is followed as core.Reach follows it, so only infeasible paths are dropped.
+func c19Reach(f *ssa.Function, from []core.At, target, blocked func(ssa.Instruction) bool, cut func(core.Edge) bool) ssa.Instruction {
+	type state struct {
+		at   core.At
+		pred *ssa.BasicBlock
+	}
+	type key struct{ b, pred *ssa.BasicBlock }
+	seen := map[key]bool{}
+	var work []state
+	for _, a := range from {
+		work = append(work, state{a, nil})
+	}
+	for len(work) > 0 {
+		st := work[len(work)-1]
+		work = work[:len(work)-1]
+		b := st.at.B
+		if st.at.Idx == 0 {
+			if seen[key{b, st.pred}] {
+				continue
+			}
+			seen[key{b, st.pred}] = true
+		}
+		stopped := false
+		for i := st.at.Idx; i < len(b.Instrs); i++ {
+			in := b.Instrs[i]
+			if blocked != nil && blocked(in) {
+				stopped = true
+				break
+			}
+			if target != nil && target(in) {
+				return in
+			}
+		}
+		if stopped {
+			continue
+		}
+		x, nilSucc, isNilTest := c19NilTest(b)
+		var op ssa.Value
+		if isNilTest {
+			op = c19PhiOperand(x, b, st.pred)
+		}
+		boolCls := c19BoolPhiClass(b, st.pred)
+		for si, s := range b.Succs {
+			if cut != nil && cut(core.Edge{From: b, To: s}) {
+				continue
+			}
+			if boolCls != 0 && len(b.Succs) == 2 && ((boolCls == 1 && si == 1) || (boolCls == 2 && si == 0)) {
+				continue
+			}
+			if op != nil && len(b.Succs) == 2 {
+				if si == nilSucc {
+					if c19KnownNonNil(f, op, st.pred) {
+						continue
+					}
+				} else if core.IsNil(op) {
+					continue
+				}
+			}
+			work = append(work, state{core.At{B: s, Idx: 0}, b})
+		}
+	}
+	return nil
+}
+
+// c19NonEmpty is the atom "the string matched by isStr is not empty" in any integer
+// spelling of the length test: with n = len(s) ≥ 0 an integer, `n > 0`, `0 < n`, `n >= 1`,
+// `1 <= n`, `n != 0` establish it on the true edge, `n <= 0`, `n < 1`, `n == 0` (and the
+// flipped operand orders) on the false edge; so do `s != ""` / `s == ""`. Nothing weaker or
+// stronger matches (`n > 1` does not: its false edge would not mean "empty").
+func c19NonEmpty(isStr func(ssa.Value) bool) core.Atom {
+	a := &core.Alg{Name: func(v ssa.Value) string {
+		if isStr(v) {
+			return "s"
+		}
+		return ""
+	}}
+	n := core.ParsePoly("len(s)")
+	n1 := core.ParsePoly("len(s) - 1")
+	isEmptyStr := func(v ssa.Value) bool { c, ok := core.ConstString(v); return ok && c == "" }
+	flip := map[token.Token]token.Token{token.GTR: token.LSS, token.LSS: token.GTR, token.GEQ: token.LEQ, token.LEQ: token.GEQ, token.EQL: token.EQL, token.NEQ: token.NEQ}
+	return func(v ssa.Value) (bool, bool) {
+		b, ok := v.(*ssa.BinOp)
+		if !ok {
+			return false, false
+		}
+		if _, known := flip[b.Op]; !known {
+			return false, false
+		}
+		if b.Op == token.EQL || b.Op == token.NEQ {
+			if (isStr(core.Forward(b.X)) && isEmptyStr(b.Y)) || (isStr(core.Forward(b.Y)) && isEmptyStr(b.X)) {
+				return true, b.Op == token.NEQ
+			}
+		}
+		bt, isBasic := b.X.Type().Underlying().(*types.Basic)
+		if !isBasic || bt.Info()&types.IsInteger == 0 {
+			return false, false
+		}
+		d := a.Norm(b.X).Sub(a.Norm(b.Y))
+		op := b.Op
+		one := false
+		switch {
+		case d.Equal(n):
+		case d.Equal(n.Neg()):
+			op = flip[op]
+		case d.Equal(n1):
+			one = true
+		case d.Equal(n1.Neg()):
+			one, op = true, flip[op]
+		default:
+			return false, false
+		}
+		// now: len(s) op 0, or len(s) − 1 op 0
+		if one {
+			switch op {
+			case token.GEQ:
+				return true, true
+			case token.LSS:
+				return true, false
+			}
+			return false, false
+		}
+		switch op {
+		case token.GTR, token.NEQ:
+			return true, true
+		case token.LEQ, token.EQL:
+			return true, false
+		}
+		return false, false
+	}
+}
+
 // c19BoolPhiClass: b ends in `if φ` (under `!`) with φ a boolean φ-node of b whose
 // operand on the edge from pred is a constant: 1 = condition true, 2 = false, 0 = unknown.
 func c19BoolPhiClass(b, pred *ssa.BasicBlock) int {
